@@ -16,7 +16,7 @@ for id in "${ids[@]}"; do
   git -C /repo checkout -- .
   if ! git -C /repo apply $p; then echo "$id: patch does not apply"; continue; fi
   s=$(date +%s)
-  out=$(/verif/check $prop $tier 2>&1); e=$?
+  out=$(VERIF_NO_EVIDENCE=1 /verif/check $prop $tier 2>&1); e=$?
   git -C /repo checkout -- .
   nviol=$(echo "$out" | grep -c "^VIOLATION property=$prop ")
   sig=$(echo "$out" | grep -m1 "signature:" | sed 's/^ *signature: *//' | cut -c1-200)
